@@ -1,5 +1,5 @@
 //@ tu: common/common_ctl.c libxcmctl/xcmc.c
-//@ loops: utilctl.loops
+//@ loops: ../harness/utilctl/xcmc.loops
 //@ defs: -DUT_STD_ASSERT
 //@ enforce: xcmc_attr_get_all
 //@ replace: xvu_attr_cb
